@@ -2,11 +2,12 @@
 (* Exhaustive / simulation configurations of Client with labelled          *)
 (* transition export for the gate-level replay of the real client.         *)
 EXTENDS Client, Json
-CONSTANTS s1, s2, o1, o2
+CONSTANTS s1, s2, o1, o2, w1, w2
 IdOfDef == [s \in {s1, s2} |-> IF s = s1 THEN "id1" ELSE "id2"]
 
 PN(p) == CASE p = s1 -> "s1" [] p = s2 -> "s2" [] OTHER -> p
 ON(o) == CASE o = o1 -> 1 [] o = o2 -> 2 [] OTHER -> 0
+WN(x) == CASE x = w1 -> 1 [] x = w2 -> 2 [] OTHER -> 0
 
 \* the process that moved in this step ("env" for Tick / Deliver); the closer wins when it stops the collector
 MovedSet == { p \in Procs : pc[p] # pc'[p] \/ loc[p] # loc'[p] }
@@ -24,15 +25,17 @@ Label ==
    clock |-> clock',
    tick |-> clock' # clock,
    setrto |-> IF rto' # rto THEN rto' ELSE 0,
+   do |-> (p # "env" /\ loc'[p].w # None /\ pc[p] = "idle"),          \* this caller is Client.Do
    deliver |-> IF inbox = None /\ inbox' # None THEN [kind |-> inbox'.kind, id |-> inbox'.id] ELSE [kind |-> "", id |-> ""],
    ev |-> IF p # "env" /\ loc'[p].ev # None THEN [kind |-> loc'[p].ev.kind, id |-> loc'[p].ev.id] ELSE [kind |-> "", id |-> ""]]
 
 \* compact state identity for path reconstruction
 ObjJ(o) == [id |-> IF obj[o].id = None THEN "" ELSE obj[o].id, a |-> obj[o].attempt, c |-> obj[o].calls,
-            w |-> IF obj[o].owner = None THEN "" ELSE PN(obj[o].owner), f |-> obj[o].free, r |-> obj[o].reg, q |-> obj[o].prev, x |-> obj[o].rto]
+            w |-> IF obj[o].owner = None THEN "" ELSE PN(obj[o].owner), f |-> obj[o].free, r |-> obj[o].reg, q |-> obj[o].prev, x |-> obj[o].rto, h |-> WN(obj[o].w)]
 LocJ(r) == [id |-> IF r.id = None THEN "" ELSE r.id, o |-> ON(r.o),
             ev |-> IF r.ev = None THEN "" ELSE r.ev.kind \o ":" \o r.ev.id,
-            todo |-> r.todo, rpc |-> IF r.rpc = None THEN "" ELSE r.rpc, s |-> IF r.s = None THEN "" ELSE PN(r.s), now |-> r.now]
+            todo |-> r.todo, rpc |-> IF r.rpc = None THEN "" ELSE r.rpc, s |-> IF r.s = None THEN "" ELSE PN(r.s), now |-> r.now, w |-> WN(r.w)]
+WJ(q) == << q.panic, [x \in DOMAIN q.w |-> << q.w[x].free, q.w[x].processed, IF q.w[x].cb = None THEN "" ELSE PN(q.w[x].cb) >>] >>
 Key(cl, cc, co, t, a, ac, al, ob, ck, pcv, lc, ib, f, r, j, ws, hc, rt, fb, en, rr, rb) ==
   << rr, rb, cl, cc, co, [i \in DOMAIN t |-> ON(t[i])], [i \in DOMAIN a |-> IF a[i] = None THEN -1 ELSE a[i]], ac,
      IF al = None THEN "" ELSE al, ck, pcv, ib # None, IF ib = None THEN "" ELSE ib.kind \o ":" \o ib.id,
@@ -41,10 +44,10 @@ Key(cl, cc, co, t, a, ac, al, ob, ck, pcv, lc, ib, f, r, j, ws, hc, rt, fb, en, 
 PrintEdge ==
   PrintT("EDGE " \o ToJson(
     [f |-> << Key(closed, closeChan, connCloses, ct, at, aclosed, alock, obj, clock, pc, loc, inbox, fails, resps, junk, wsucc, hcalls, ret, fbcalls, ended, rto, rtoBudget + 10 * idleLeft),
-              [o \in Objs |-> ObjJ(o)], [p \in Procs |-> LocJ(loc[p])] >>,
+              [o \in Objs |-> ObjJ(o)], [p \in Procs |-> LocJ(loc[p])], WJ(wp) >>,
      a |-> Label,
      t |-> << Key(closed', closeChan', connCloses', ct', at', aclosed', alock', obj', clock', pc', loc', inbox', fails', resps', junk', wsucc', hcalls', ret', fbcalls', ended', rto', rtoBudget' + 10 * idleLeft'),
               [o \in Objs |-> [id |-> IF obj'[o].id = None THEN "" ELSE obj'[o].id, a |-> obj'[o].attempt, c |-> obj'[o].calls,
-                               w |-> IF obj'[o].owner = None THEN "" ELSE PN(obj'[o].owner), f |-> obj'[o].free, r |-> obj'[o].reg, q |-> obj'[o].prev, x |-> obj'[o].rto]],
-              [p \in Procs |-> LocJ(loc'[p])] >>]))
+                               w |-> IF obj'[o].owner = None THEN "" ELSE PN(obj'[o].owner), f |-> obj'[o].free, r |-> obj'[o].reg, q |-> obj'[o].prev, x |-> obj'[o].rto, h |-> WN(obj'[o].w)]],
+              [p \in Procs |-> LocJ(loc'[p])], WJ(wp') >>]))
 =============================================================================
